@@ -62,6 +62,7 @@ func createInMemory(cursor *InMemory, parse parser.Parser) error {
 
 		if _, isNamespace := n.(node.Namespace); inheritPending && !(err == nil && !isEnd && isNamespace) {
 			pos = inheritNamespaces(cursor, pos)
+			dropUndeclared(cursor)
 			inheritPending = false
 		}
 
@@ -139,6 +140,21 @@ func inheritNamespaces(cursor *InMemory, pos int) int {
 	}
 
 	return pos
+}
+
+// dropUndeclared removes the namespace nodes of cursor that have an empty
+// URI: xmlns="" undeclares the default namespace, it does not bind it.
+func dropUndeclared(cursor *InMemory) {
+	kept := 0
+
+	for _, c := range cursor.namespaces {
+		if c.(*InMemory).node.(node.Namespace).NamespaceValue() != "" {
+			cursor.namespaces[kept] = c
+			kept++
+		}
+	}
+
+	cursor.namespaces = cursor.namespaces[:kept]
 }
 
 func createNonElement(node node.Node, parent *InMemory, pos int) *InMemory {
